@@ -161,7 +161,9 @@ Records::Records(
 		mAction=WRITE;
 	}
 
-    make_scan_formats(mScanFormats,true);
+    // the separator after a number is consumed explicitly in
+    // scan_column_values, not by the scan format
+    make_scan_formats(mScanFormats,false);
     make_print_formats(mPrintFormats);
 
 }
@@ -387,7 +389,20 @@ void Records::scan_column_values(long long fnum, char* input_buff)
             }
 
 
-		}
+		} else if (!mReadAsWhitespace) {
+            // Consume optional blanks and then exactly one separator (the
+            // delimiter or the end of line).  A scanf whitespace directive
+            // followed by the literal delimiter must not be used for this:
+            // it also eats the newline and the leading blanks or delimiter
+            // characters of a fixed-width string field that comes next
+            int c = fgetc(mFptr);
+            while ((c == ' ' || c == '\t' || c == '\r') && c != mDelim[0]) {
+                c = fgetc(mFptr);
+            }
+            if (c != mDelim[0] && c != '\n' && c != EOF) {
+                ungetc(c, mFptr);
+            }
+        }
         if (!skipping) {
             buff += mSizes[fnum]/mNel[fnum] ;
         }
